@@ -104,11 +104,16 @@ Definition get_node (s : tstate) (i : Z) : option tstate :=
   let d' := if Z.shiftr i (SPLIT_BITS * (depth s + 1)) =? 0 then depth s else depth s + 1 in
   if (0 <? i) && (i <? cap d') then Some (set_depth s d') else None.
 
+(* keep the slots satisfying f.  This is, by definition (reflexivity), PMP.filter f m;
+   it is spelled out so that extraction does not have to open the FMapFacts functor. *)
+Definition slot_filter (f : positive -> id -> bool) (m : PM.t id) : PM.t id :=
+  PM.fold (fun k e acc => if f k e then PM.add k e acc else acc) m (PM.empty id).
+
 (* iv_timer_radix_tree_remove_level *)
 Definition remove_level (s : tstate) : tstate :=
   let d' := depth s - 1 in
   let lim := cap d' in
-  set_depth (set_slots s (PMP.filter (fun k _ => Zpos k <? lim) (slots s))) d'.
+  set_depth (set_slots s (slot_filter (fun k _ => Zpos k <? lim) (slots s))) d'.
 
 (* timer_ptr_gt(a, b) = timespec_gt(&a->expires, &b->expires) *)
 Definition ptr_gt (s : tstate) (a b : id) : bool := texp s b <? texp s a.
